@@ -76,4 +76,16 @@ def prove(tier, seed):
             continue
         seen[k] = seen.get(k, 0) + 1
         replay.append(dict(c, function="ppt_distinguishability"))
-    return merge(base, prove_sdp("ppt", replay[:80], "c12p", tier))
+    out = merge(base, prove_sdp("ppt", replay[:80], "c12p", tier))
+    # ... and the cvxpy program of symmetric_extension_hierarchy (density-matrix input, `dim` given as a list; n, local dimensions, level enumerated)
+    from props.sdp_prove import prove_seh
+
+    rep2 = []
+    seen = {}
+    for c in gen("quick", seed):
+        k = c.get("clause", "")
+        if not k.startswith("sym.") or k in ("sym.frame", "sym.split_sequence") or seen.get(k, 0) >= 5:
+            continue
+        seen[k] = seen.get(k, 0) + 1
+        rep2.append(dict(c, function="symmetric_extension_hierarchy"))
+    return merge(out, prove_seh(rep2[:60], "c12s", tier))
